@@ -197,6 +197,25 @@ def gen_memory(rng, quick):
                       "damage": [["trunc_all"]] + ext})
         cases.append({"kind": "memory", "obj": large[0], "compress": comp, "werror": True,
                       "damage": [["trunc_auto", 30 if quick else 300]] + ext})
+    # cached functions whose parameter names collide with the parameter names of joblib's internal helpers
+    # (format_signature(func, *args, **kwargs), filter_args(func, ignore_lst, args, kwargs), Logger.warn(msg), ...)
+    sigs = [["func"], ["func", "x"], ["args", "kwargs"], ["self", "x"], ["x", "ignore_lst"], ["cls", "name"],
+            ["msg", "location", "verbose"], ["func", "args", "kwargs", "self"]]
+    for i, sig in enumerate(sigs):
+        for style in ("pos", "kw"):
+            if style == "kw" and "self" in sig:
+                continue    # f(self=...) cannot even be passed through MemorizedFunc.__call__(self, *args, **kwargs)
+            if quick and (i + (style == "kw")) % 2 and sig != ["func", "x"]:
+                continue
+            cases.append({"kind": "memory", "obj": small[0], "compress": bool(i % 2), "sig": sig, "callstyle": style,
+                          "werror": bool(i % 3 == 0), "damage": few if quick else [["trunc_all"]] + ext})
+    # a stale temporary file of a writer killed in mid-dump (output.pkl.thread-*-pid-*) in the entry directory:
+    # next to a valid output.pkl (damage "none") and next to every damaged one
+    for comp in [False, True]:
+        cases.append({"kind": "memory", "obj": small[0], "compress": comp, "stale_tmp": True,
+                      "damage": [["none"]] + (few if quick else [["trunc_all"]] + ext)})
+        cases.append({"kind": "memory", "obj": large[0], "compress": comp, "stale_tmp": True, "werror": True,
+                      "damage": [["none"], ["trunc_auto", 12 if quick else 200]] + ext})
     return cases
 
 
@@ -322,12 +341,26 @@ def judge_load(c, r):
     return viol, dis, hang
 
 
+KNOWN_F50 = "c14:recovery-format_signature-kwarg-named-func"
+
+
+def known_key(c, text):
+    """F50: only a cached function with a parameter named `func`, called BY KEYWORD, whose recovery raises TypeError"""
+    if c.get("kind") == "memory" and c.get("sig") and "func" in c["sig"] and c.get("callstyle") == "kw" \
+            and "the cached call gave R:TypeError" in text:
+        return KNOWN_F50
+    return None
+
+
 def judge_memory(c, r):
     viol, hang = [], []
     for x in r["results"]:
-        what = "Memory(compress=%s%s%s): output.pkl %s (%d -> %d bytes)" % (
+        what = "Memory(compress=%s%s%s%s%s): output.pkl %s (%d -> %d bytes)" % (
             c["compress"], ", entry not deletable (%s)" % c["undeletable"] if c.get("undeletable") else "",
-            ", warnings as errors" if c.get("werror") else "", x["damage"], x["orig_len"], x["len"])
+            ", warnings as errors" if c.get("werror") else "",
+            ", cached function f(%s) called by %s" % (", ".join(c["sig"]), c.get("callstyle")) if c.get("sig") else "",
+            ", stale temporary file of a dead writer in the entry" if c.get("stale_tmp") else "",
+            x["damage"], x["orig_len"], x["len"])
         if x["code"].startswith("H"):
             hang.append(what + ": the cached call never returned (%s)" % x["code"][2:])
         elif x["code"] != "E":
@@ -553,6 +586,13 @@ def run(ctx):
             ctx.note("inconclusive: %s -- returned when retried with a 30 s limit" % what)
     for what, c in confirmed[:3]:
         ctx.violation("hang: " + what, {"kind": "oracle", "case": c}, True)
+    known_hits = [(w, c) for w, c in viol if known_key(c, w)]
+    viol = [(w, c) for w, c in viol if not known_key(c, w)]
+    for what, c in known_hits[:1]:
+        ctx.violation(what, {"kind": "oracle", "case": c}, True, finding_key=known_key(c, what))
+    if not known_hits:
+        # the witness of the known finding no longer fails: the finding is stale
+        ctx.note("known finding F50 did not reproduce in this run (fixed upstream?)")
     for what, c in viol[:3]:
         ctx.violation(what, {"kind": "oracle", "case": c}, True)
     if dis and not viol and not confirmed:
